@@ -24,18 +24,22 @@ def run(tier, seed):
     quick = tier == "quick"
     made = {}
 
-    def assertion(c, kind="ES256-P256"):
-        if (c, kind) not in made:
+    def assertion(c, kind="ES256-P256", flags=0x05):
+        if (c, kind, flags) not in made:
             s = authcat.Scn(kind)
             s.count = c
-            made[(c, kind)] = s.build()
-        return made[(c, kind)]
+            s.flags = flags
+            made[(c, kind, flags)] = s.build()
+        return made[(c, kind, flags)]
 
-    def present(s_stored, c, kind="ES256-P256", form="record"):
-        pol, a = assertion(c, kind)
+    # the rule is independent of every other field of the authenticator data: flag bytes with/without UV, BE, BS, ED, reserved bits
+    FLAGS = [0x05, 0x01, 0x0D, 0x1D, 0x09, 0x85, 0x27, 0x19]
+
+    def present(s_stored, c, kind="ES256-P256", form="record", flags=0x05):
+        pol, a = assertion(c, kind, flags)
         pol = impl.AuthPolicy(pol.challenge, pol.rp_id, pol.origin, pol.pubkey, s_stored, pol.require_uv)
         should = (c > s_stored) or (c == 0 and s_stored == 0)
-        il, ml = B.run_case(pol, a, form, "accept" if should else "reject", f"counter s={s_stored} c={c}")
+        il, ml = B.run_case(pol, a, form, "accept" if should else "reject", f"counter s={s_stored} c={c}" + ("" if flags == 0x05 else f" flags={flags:#x}"))
         if il.startswith("OK"):
             new = fw.rd_i(il.split()[2])
             if new != c:
@@ -49,7 +53,10 @@ def run(tier, seed):
         a, b = rng.randrange(B32), rng.randrange(B32)
         pairs += [(a, b), (a, a), (a, min(B32 - 1, a + 1))]
     for i, (s, c) in enumerate(pairs):
-        present(s, c, kind=("ES256-P256" if i % 5 else "EdDSA"), form=("record" if i % 3 else "dict"))
+        present(s, c, kind=("ES256-P256" if i % 5 else "EdDSA"), form=("record" if i % 3 else "dict"), flags=FLAGS[i % 7 % len(FLAGS)] if i % 2 else 0x05)
+    for fl in FLAGS[1:]:
+        for (s, c) in [(0, 0), (5, 5), (5, 4), (4, 5), (B31, 1), (B32 - 1, 0), (0, B32 - 1)]:
+            present(s, c, flags=fl)
     chk.sample({"grid": GRID, "example_pair": pairs[8]})
     # 2. histories
     ctrs = [0, 1, 1, 2, B31, B32 - 1]          # six pre-signed assertions (one counter repeated: two distinct assertions)
@@ -63,13 +70,14 @@ def run(tier, seed):
         for _ in range(1500):
             hists.append([rng.randrange(6) for _ in range(rng.randrange(6, 40))])
         chk.exhaustive = True
+    hflags = [0x05, 0x0D, 0x01, 0x1D, 0x05, 0x09]
     for h in hists:
         stored = 0
         accepted_nonzero = set()
         trace = []
         for idx in h:
             c = ctrs[idx]
-            ok, new = present(stored, c)
+            ok, new = present(stored, c, flags=hflags[idx])
             trace.append((idx, c, ok, new))
             if ok:
                 if new < stored:
